@@ -284,8 +284,19 @@ func (w *world) doStep() bool {
 		}
 		e := core.Pick(r, movable)
 		nn := w.genName(e.parent)
-		rep, ok := w.cl.Call(207, append(w.fields(e), rc.F(211, nn))...)
-		w.log = append(w.log, fmt.Sprintf("rename %q -> %q in %q (dir=%v comment=%d) -> %v", e.name, nn, e.parent.path(), e.dir, len(e.comment), rep))
+		fs := append(w.fields(e), rc.F(211, nn))
+		var both []byte
+		if !e.dir && e.alias == nil && !e.partial && r.Chance(1, 3) {
+			// the same request also sets the comment (both fields are optional parts of one set-file-info request)
+			both = []byte("renamed and commented " + string(r.Printable(1+r.Intn(40))))
+			fs = append(fs, rc.F(210, both))
+			w.kinds["rename-with-comment"]++
+		}
+		rep, ok := w.cl.Call(207, fs...)
+		w.log = append(w.log, fmt.Sprintf("rename %q -> %q in %q (dir=%v comment=%d, new comment in the same request: %d bytes) -> %v", e.name, nn, e.parent.path(), e.dir, len(e.comment), len(both), rep))
+		if both != nil && ok && rep.Err == 0 {
+			e.comment = both
+		}
 		if !ok || rep.Err != 0 {
 			w.c.Fail("C11/rename/refused", "step %d: rename of a listed entry by its listed name was refused or unanswered: %v\nhistory:\n%s", w.step, rep, w.hist())
 			return false
